@@ -280,6 +280,8 @@ func init() {
 				add("wide/bytewise", c02Alpha, 3, "m2", nil)
 				add("seeky/bytewise", c02Alpha, 2, "m3few", nil)
 				add("flushy/shortlex", sa, 3, "m2", sp)
+				add("flushy/bytewise", emptyKeyAlpha, 3, "m2", emptyKeyProbes)
+				add("mixed/bytewise", shapeAlpha, 2, "m2", shapeProbes)
 			} else {
 				add("flushy/bytewise", c02Alpha, 4, "m3few", nil)
 				add("flushy/bytewise", c02Alpha, 3, "m3all", nil)
@@ -289,6 +291,8 @@ func init() {
 				add("seeky/bytewise", c02Alpha, 3, "m3all", nil)
 				add("flushy/shortlex", sa, 4, "m3few", sp)
 				add("wide/shortlex", sa, 3, "m3all", sp)
+				add("flushy/bytewise", emptyKeyAlpha, 4, "m3few", emptyKeyProbes)
+				add("mixed/bytewise", shapeAlpha, 3, "m3few", shapeProbes)
 			}
 			runSpecs(c, "C02", specs,
 				"(a) BFS over DB operation sequences (puts, deletes, batch, CompactRange, Quiesce, snapshots, transactions); in every reached state, for the DB, each live snapshot and the open transaction, for every range with Start/Limit in {nil} ∪ probes (mode *all*) or a 4-bound subset (*few*), every movement sequence of the stated depth (m2/m3/m4) over {First,Last,Next,Prev,Seek(7 probes)} runs on a fresh iterator and is compared move by move (return value, Valid, Key, Value, Error) with a cursor over the sorted live pairs in range; x_movement_sequences / x_moves count them; (b) the same enumeration on NewMergedIterator for every assignment of <=5 keys to 3 children and on NewIndexedIterator for every split into runs (component_* counters); table and memdb iterators are enumerated in C13 and C14",
